@@ -103,10 +103,8 @@ func Evaluate(ctx context.Context, scope *ReferenceScope, expr parser.QueryExpre
 
 func evaluateSequentialRoutine(ctx context.Context, scope *ReferenceScope, view *View, fn func(*ReferenceScope, int) error, thIdx int, gm *GoroutineTaskManager) {
 	defer func() {
-		if !gm.HasError() {
-			if panicReport := recover(); panicReport != nil {
-				gm.SetError(NewFatalError(panicReport))
-			}
+		if panicReport := recover(); panicReport != nil {
+			gm.SetError(NewFatalError(panicReport))
 		}
 
 		if 1 < gm.Number {
